@@ -24,7 +24,7 @@ RULE = (
 )
 ASSUMPTIONS = [
     "a {% provide %} placed between a component tag and its {% fill %} tags is not generated (DESIGN.md §4)",
-    "inject(key, None) is indistinguishable from 'no default' and is not generated",
+    "inject(key) without default and without provider raises KeyError (documented); with several independent failing components any error class that some evaluation order meets first is accepted",
 ]
 
 
